@@ -44,6 +44,13 @@ CHECKS.update({
             "Trusted: TLC, CPython datetime, the UTC clock read around each implicit-now call; zones without DST only for the implicit-now form. Bare phrases whose value is out of range are outside the domain (they fall through to the absolute parser).",
             "DESIGN.md 4 C04"),
 })
+CHECKS.update({
+    "C19": ("fault_enumeration",
+            "fault enumeration on a private copy of the package (prefix lengths of the shipped cache, missing file, unreadable bytes, kill points inside the writer, a second importer during the first one's write, real subprocess imports); every recorded loader execution validated by TLC against the TLA+ specification TzCache.tla (T_C19.tla); TzCache model-checked with the catch set measured on the real loader",
+            "Quick enumerates about 1.9k prefix lengths (all of the first/last 256 bytes, every 128th, 300 random), thorough every 4th byte plus 5000 random; each is followed by a second load that must find a complete cache (judged by content). Kill points after each write call of the rewrite, two-importer overlaps at each write point followed by a third import, and real `import dateparser` subprocesses are added. TLC validates each recorded step sequence (open_r, load(cls), rebuild, open_w, write, close, crash) as a behaviour of TzCache with the invariants ImportSucceeds / SameTable / RepairedAfterImport evaluated in every state, and model-checks TzCache (1 crasher, 2 overlapping importers, 1 late importer, all interleavings, liveness under weak fairness) with the measured catch set.",
+            "Trusted: TLC, pickle, the probes around open/pickle in timezone_parser (installed at run time), content-based judgement of completeness. A simulated kill raises out of write(); kernel-level partial writes are represented by the prefix enumeration. Overlapping in-place writers may leave a mixed file, which the next import repairs (documented observation, outside the stated quantifier).",
+            "DESIGN.md 4 C19"),
+})
 NOT_YET = {}
 
 def main():
